@@ -2,8 +2,13 @@
    followed by Print Assumptions.  [xs] ranges over ALL lists of steps: owner steps (create,
    cancel, stop, begin a Do, continue / finish the running callback - cancel and create are
    also accepted while a callback runs, i.e. from inside it), clock steps and the runtime's
-   expiry steps (enabled only at or after the deadline).  [trace xs] is the event trace and
-   [final xs] the state they lead to from a fresh Mgr. *)
+   expiry steps (enabled only at or after the deadline), and the steps of the OWNER's life
+   cycle: Start() of the run service that owns the manager ([SStart]: the loop goroutine that
+   drains the queue exists from here on), Stop() by whichever goroutine ([SStop] +
+   [SClose]; from inside a callback: [AStop]), the loop's end ([SLoopEnd]).  [trace xs] is the
+   event trace and [final xs] the state they lead to from a fresh manager whose owner has not
+   been started yet ([init]); a bare manager with an owner goroutine that drains from the
+   beginning is the history [SStart :: xs]. *)
 From Cell2V Require Import Common.Tac Common.ListX Common.AList C14.Model C14.Spec C14.Proofs C14.Corr.
 
 (* Once the owner has cancelled an existing timer - while armed, while its expiry is in
@@ -56,7 +61,7 @@ Print Assumptions C14_exact_count.
 (* Progress: from any reachable state with an armed, uncancelled timer k, once its deadline has
    passed the runtime's expiry followed by the owner's Do invokes the callback. *)
 Theorem C14_fire_then_do_runs_callback : forall xs k t dl dt,
-  cur (final xs) = None -> running (final xs) = true ->
+  cur (final xs) = None -> running (final xs) = true -> drains (life_of (final xs)) = true ->
   Z.of_nat (length (queue (final xs))) < qcap ->
   aget k (objs (final xs)) = Some t -> t_canceled t = false -> t_tok t = Pending dl ->
   dl <= clock (final xs) + Z.max 0 dt ->
@@ -67,7 +72,8 @@ Print Assumptions C14_fire_then_do_runs_callback.
 
 (* ... and whenever an uncancelled timer's expiry sits in the queue, Do on it runs the callback. *)
 Theorem C14_queued_do_runs_callback : forall xs k t,
-  cur (final xs) = None -> aget k (objs (final xs)) = Some t -> t_tok t = Queued ->
+  cur (final xs) = None -> drains (life_of (final xs)) = true ->
+  aget k (objs (final xs)) = Some t -> t_tok t = Queued ->
   t_canceled t = false ->
   trace (xs ++ [SBegin k]) = trace xs ++ [ECb k (clock (final xs)) (t_args t)].
 Proof. exact queued_do. Qed.
@@ -82,9 +88,9 @@ Theorem C14_repeat_rearms : forall xs k p t1 t2 clk d rep a,
 Proof. exact repeat_rearms_all. Qed.
 Print Assumptions C14_repeat_rearms.
 
-(* Again and again: from any reachable state in which k is a live repeating timer whose
-   program does not cancel k (it may panic, cancel others, create timers), m periods yield
-   exactly m further callbacks, for every m. *)
+(* Again and again: from any reachable state in which k is a live repeating timer on a live
+   loop and its program neither cancels k nor stops the owner (it may panic, cancel others,
+   create timers), m periods yield exactly m further callbacks, for every m. *)
 Theorem C14_repeat_fires_n : forall xs k d t m,
   CyclePre (final xs) k d (t_prog t) t ->
   count_cb k (trace (xs ++ cycles m k d (length (t_prog t)))) = count_cb k (trace xs) + Z.of_nat m.
@@ -105,13 +111,85 @@ Theorem C14_panic_isolated : forall s k r,
 Proof. exact panic_is_return. Qed.
 Print Assumptions C14_panic_isolated.
 
-(* Callbacks are started only by the owner's Do (never by a runtime or clock step), and only
-   while no other callback is running. *)
+(* Only on the goroutine that drains the owner's timer queue: callbacks are started only by
+   the Do of the draining goroutine ([SBegin] / [SDoNext] are steps of that goroutine:
+   [loop_step]) - never by a runtime or clock step, never by Start() or Stop() whoever calls
+   them, never by a create or cancel -, only while that goroutine is alive, and only while no
+   other callback is running. *)
 Theorem C14_callbacks_only_from_do : forall s x k c a,
   In (ECb k c a) (snd (step s x)) ->
-  (x = SBegin k \/ (x = SDoNext /\ hd_error (queue s) = Some k)) /\ cur s = None /\ c = clock s.
+  (x = SBegin k \/ (x = SDoNext /\ hd_error (queue s) = Some k)) /\ cur s = None /\ c = clock s /\
+  drains (life_of s) = true.
 Proof. exact cb_only_from_do. Qed.
 Print Assumptions C14_callbacks_only_from_do.
+
+(* ---- the owner's life cycle ---- *)
+
+(* Start(), Stop() and the end of the loop goroutine each happen at most once, in this order:
+   the state's [life] is exactly the number of these events so far. *)
+Theorem C14_life_cycle_once : forall xs,
+  life_events (life_of (final xs)) =
+  (count_ev is_start (trace xs), count_ev is_close (trace xs), count_ev is_end (trace xs)).
+Proof. exact life_cycle_once. Qed.
+Print Assumptions C14_life_cycle_once.
+
+(* Every callback - start-up and teardown included - is invoked after the loop goroutine was
+   started and before it ended: nothing runs before Start(), and an expiry that is still
+   queued when Stop() is called is either run by the loop goroutine before it ends or not at
+   all. *)
+Theorem C14_callbacks_within_owner_life : forall xs k c a t1 t2,
+  trace xs = t1 ++ ECb k c a :: t2 -> In EStart t1 /\ ~ In ELoopEnd t1.
+Proof. exact callbacks_within_all. Qed.
+Print Assumptions C14_callbacks_within_owner_life.
+
+(* After the loop goroutine has ended nothing of the manager runs anywhere: no callback starts,
+   returns or re-arms; timers can still be created and cancelled, the runtime may still expire
+   them - no callback follows (the only events are ECreate / ECancel / EStop / EQueued). *)
+Theorem C14_nothing_after_loop_end : forall xs t1 t2,
+  trace xs = t1 ++ ELoopEnd :: t2 -> forall x, In x t2 -> quiet_event x.
+Proof. exact nothing_after_loop_end_all. Qed.
+Print Assumptions C14_nothing_after_loop_end.
+
+(* Stop is final: the manager's running flag is false exactly from the first Stop on (nothing
+   sets it again), and from then on the expiry of an armed timer is discarded by its AfterFunc
+   function - it never reaches the channel, so it is never run. *)
+Theorem C14_stop_is_final : forall xs, running (final xs) = false <-> In EStop (trace xs).
+Proof. exact stop_is_final. Qed.
+Print Assumptions C14_stop_is_final.
+
+Theorem C14_stopped_manager_drops_expiries : forall s k t dl,
+  running s = false -> aget k (objs s) = Some t -> t_tok t = Pending dl -> dl <= clock s ->
+  fire_check s k = (put s k (set_tok Dead t), []).
+Proof. exact stopped_drops. Qed.
+Print Assumptions C14_stopped_manager_drops_expiries.
+
+(* Before Start() every expiry waits: the queue is exactly the expiries sent so far, in order
+   of arrival - none is dropped, none is run (and no callback is in progress). *)
+Theorem C14_prestart_expiries_wait : forall xs,
+  life_of (final xs) = LNew -> queue (final xs) = queued_of (trace xs) /\ cur (final xs) = None.
+Proof. exact prestart_expiries_wait. Qed.
+Print Assumptions C14_prestart_expiries_wait.
+
+(* ... and runs after Start(): the loop's Do on an expiry that happened before Start() invokes
+   the callback (for a one-shot exactly once: C14_oneshot_once bounds it from above) ... *)
+Theorem C14_prestart_expiry_runs_after_start : forall xs k t,
+  life_of (final xs) = LNew -> In (EQueued k) (trace xs) ->
+  aget k (objs (final xs)) = Some t -> t_canceled t = false ->
+  trace (xs ++ [SStart; SBegin k]) = trace xs ++ [EStart; ECb k (clock (final xs)) (t_args t)].
+Proof. exact prestart_runs_after_start. Qed.
+Print Assumptions C14_prestart_expiry_runs_after_start.
+
+(* ... and a repeating timer whose first expiry happened before Start() then fires again and
+   again: its first callback and m further periods give exactly 1 + m callbacks, for every m. *)
+Theorem C14_prestart_repeating_again_and_again : forall xs k d t m,
+  life_of (final xs) = LNew -> In (EQueued k) (trace xs) ->
+  aget k (objs (final xs)) = Some t -> t_canceled t = false -> t_period t = d -> 0 < d ->
+  keeps k (t_prog t) -> running (final xs) = true -> Z.of_nat (length (queue (final xs))) < qcap ->
+  count_cb k (trace (xs ++ [SStart; SBegin k] ++ repeat SCbStep (S (length (t_prog t)))
+                        ++ cycles m k d (length (t_prog t)))) =
+  count_cb k (trace xs) + 1 + Z.of_nat m.
+Proof. exact prestart_repeating. Qed.
+Print Assumptions C14_prestart_repeating_again_and_again.
 
 (* One expiry token per timer: a timer has at most one entry in the queue, exactly when its
    token is Queued (no duplicate deliveries). *)
@@ -127,7 +205,9 @@ Print Assumptions C14_ids_unique.
 
 (* The harness' logical operations are particular step lists, so everything above holds for
    the histories the correspondence run executes. *)
-Theorem C14_ops_are_steps : forall ops, ops_trace init ops = trace (steps_of init ops).
+Theorem C14_ops_are_steps : forall ops bs,
+  start_trace ops ++ ops_trace (start_state ops) ops bs =
+  trace (pre_steps ops ++ steps_of (start_state ops) ops bs).
 Proof. exact ops_are_steps. Qed.
 Print Assumptions C14_ops_are_steps.
 
@@ -145,15 +225,17 @@ Print Assumptions C14_full_channel_blocks.
    (together with C14_exact_count: an expiry in flight is never lost). *)
 Theorem C14_blocked_send_delivers : forall xs k t,
   aget k (objs (final xs)) = Some t -> t_tok t = Firing ->
+  drains (life_of (final xs)) = true ->
   (recvd (final xs) < length (queue (final xs)))%nat ->
   trace (xs ++ [SRecv; SFireSend k]) = trace xs ++ [EQueued k].
 Proof. exact blocked_send_delivers. Qed.
 Print Assumptions C14_blocked_send_delivers.
 
-(* The executable monitor (Spec.monitor_from / Corr.monitor, unchanged) accepts the model's own
-   observations for EVERY op list: a monitor failure on an implementation trace is therefore a
-   behaviour the model - and with it the theorems above - excludes. *)
-Theorem C14_monitor_accepts_model : forall ops, monitor (ops, run ops) = true.
+(* The executable monitor (Spec.monitor_from / Corr.monitor) accepts the model's own
+   observations for EVERY op list and EVERY schedule the released loops are told to follow
+   ([bs]): a monitor failure on an implementation trace is therefore a behaviour the model -
+   and with it the theorems above - excludes. *)
+Theorem C14_monitor_accepts_model : forall ops bs, monitor (ops, run ops bs) = true.
 Proof. exact monitor_accepts_model. Qed.
 Print Assumptions C14_monitor_accepts_model.
 
@@ -175,7 +257,7 @@ Print Assumptions C14_monitor_clause_oneshot_first.
 (* cancel while queued (timer 0), from another timer's callback (timer 1 cancels 2), from the
    own callback after a panic-free body (timer 3), and a repeating timer firing twice *)
 Example C14_example_run :
-  run [OCreate 1 true 10 []; OCreate 1 false 11 [ACancel 2]; OCreate 2 true 12 [];
+  show [OCreate 1 true 10 []; OCreate 1 false 11 [ACancel 2]; OCreate 2 true 12 [];
        OCreate 1 true 13 [ACancelSelf]; OCreate 1 true 14 [APanic];
        OSettle 0; OCancel 0; ODo 1; ODoAll; OSettle 0; ODoAll; OSettle 3]
   = [BUnit; BUnit; BUnit; BUnit; BUnit;
@@ -186,18 +268,46 @@ Example C14_example_run :
 Proof. vm_compute. reflexivity. Qed.
 
 Example C14_example_trace :
-  trace [SCreate 2 true 7 [APanic]; SAdvance 2; SFireCheck 0; SFireSend 0; SDoNext; SCbStep;
+  trace [SStart; SCreate 2 true 7 [APanic]; SAdvance 2; SFireCheck 0; SFireSend 0; SDoNext; SCbStep;
          SAdvance 1; SFireCheck 0; SAdvance 1; SFireCheck 0; SCancel 0; SFireSend 0; SDoNext]
-  = [ECreate 0 0 2 true 7; EQueued 0; ECb 0 2 7; ERet 0 true; EArm 0 2; ECancel 0; EQueued 0].
+  = [EStart; ECreate 0 0 2 true 7; EQueued 0; ECb 0 2 7; ERet 0 true; EArm 0 2; ECancel 0; EQueued 0].
+Proof. vm_compute. reflexivity. Qed.
+
+(* a service: two timers created before Start() (a one-shot due before Start, a repeating one),
+   a busy loop with expiries queued, Stop() from outside with both expiries queued; the loop
+   takes one more (the schedule [1] is the implementation's) and ends; nothing afterwards *)
+Example C14_example_service :
+  run [OSvc; OCreate 1 false 7 []; OCreate 2 true 8 []; OWait 0; OStart; OCreate 1 false 9 [];
+       OWait 0; OStopSvc 0; ORun; OCreate 1 false 5 []; OWait 6]
+      [BUnit; BUnit; BUnit; BUnit; BRan [CbRec 1 1 true false false true; CbRec 0 1 true false false true];
+       BUnit; BUnit; BUnit; BRan [CbRec 1 2 true false false true]]
+  = [BUnit; BUnit; BUnit; BWait [0; 1] [];
+     BRan [CbRec 1 1 true false false true; CbRec 0 1 true false false true];
+     BUnit; BWait [1; 2] []; BWait [] []; BRan [CbRec 1 2 true false false true]; BUnit; BWait [] []].
+Proof. vm_compute. reflexivity. Qed.
+
+(* the hypotheses of the pre-start theorems are met: timer 0 expired before Start() *)
+Example C14_example_prestart :
+  let xs := [SCreate 2 true 7 [APanic]; SAdvance 2; SFireCheck 0; SFireSend 0] in
+  life_of (final xs) = LNew /\ In (EQueued 0) (trace xs) /\ queue (final xs) = [0] /\
+  count_cb 0 (trace (xs ++ [SStart; SBegin 0] ++ repeat SCbStep 2 ++ cycles 3 0 2 1)) = 4.
+Proof. vm_compute. repeat split. right. left. reflexivity. Qed.
+
+(* a whole life: start, a callback that stops its own service, the loop's end, a late create *)
+Example C14_example_life :
+  trace [SCreate 1 false 7 [AStop]; SAdvance 1; SFireCheck 0; SFireSend 0; SStart; SDoNext; SCbStep;
+         SCbStep; SLoopEnd; SCreate 0 false 8 []; SFireCheck 1; SBegin 1]
+  = [ECreate 0 0 1 false 7; EQueued 0; EStart; ECb 0 1 7; EStop; EClose; ERet 0 false; ELoopEnd;
+     ECreate 1 1 0 false 8].
 Proof. vm_compute. reflexivity. Qed.
 
 (* the hypotheses of C14_repeat_fires_n are met by a reachable state (panicking program) *)
 Example C14_example_cyclepre :
-  exists t, CyclePre (final [SCreate 2 true 7 [ACreate 1 false 3 []; APanic]]) 0 2
+  exists t, CyclePre (final [SStart; SCreate 2 true 7 [ACreate 1 false 3 []; APanic]]) 0 2
                      [ACreate 1 false 3 []; APanic] t
             /\ t_prog t = [ACreate 1 false 3 []; APanic].
 Proof. exact cyclepre_example. Qed.
 
 Example C14_example_repeat :
-  count_cb 0 (trace ([SCreate 2 true 7 [ACreate 1 false 3 []; APanic]] ++ cycles 5 0 2 2)) = 5.
+  count_cb 0 (trace ([SStart; SCreate 2 true 7 [ACreate 1 false 3 []; APanic]] ++ cycles 5 0 2 2)) = 5.
 Proof. vm_compute. reflexivity. Qed.
